@@ -4,6 +4,7 @@ import (
 	"fmt"
 	"go/token"
 	"go/types"
+	"sort"
 	"strings"
 
 	"gofasta-verif/core"
@@ -80,6 +81,156 @@ func C10(c *core.Ctx) {
 		c.Und("R1/getLines", token.NoPos, "UNRESOLVED anchor updown.getLines")
 		return
 	}
+	concreteOK := c10Concrete(c, fn, tabs)
+	// the per-column transducer argument (all 17x17x2 points, any sequence length) applies when the column loop keeps its
+	// tract state in a boolean; where the code represents that state otherwise the argument does not apply, and the
+	// bounded family above (every sequence of the bound over a six-symbol alphabet, five references) is what is decided
+	mark := len(c.Obs)
+	c10Transducer(c, fn, tabs)
+	if concreteOK {
+		kept := c.Obs[:mark:mark]
+		for _, o := range c.Obs[mark:] {
+			if o.Status == core.Undecided.String() && strings.HasPrefix(o.Key, c.Prop+"/R1/getLines") {
+				c.Note("the transducer argument does not apply to the current shape of getLines (%s); decided on the bounded family only", o.Detail)
+				continue
+			}
+			kept = append(kept, o)
+		}
+		c.Obs = kept
+	}
+	c10Writer(c)
+	checkPoolOrder(c, "R3", "pkg/updown", "List")
+}
+
+// symMinus: if l == sym + k returns sym.
+func symMinus(l eval.Lin, k int64) string {
+	if len(l.T) != 1 || l.C != k {
+		return ""
+	}
+	for s, co := range l.T {
+		if co == 1 {
+			return s
+		}
+	}
+	return ""
+}
+
+func varOfIn(sum *eval.LoopSummary, inSym string) string {
+	for name, s := range sum.In {
+		if s == inSym {
+			return name
+		}
+	}
+	return ""
+}
+
+// c10Writer interprets updown.writeOutput on one symbolic record.
+func c10Writer(c *core.Ctx) {
+	fn := c.LookupFunc("pkg/updown", "writeOutput")
+	if fn == nil {
+		c.Und("R3/writeOutput", token.NoPos, "UNRESOLVED anchor updown.writeOutput")
+		return
+	}
+	lineT := namedType(c, "pkg/updown", "updownLine")
+	if lineT == nil {
+		c.Und("R3/writeOutput", fn.Pos(), "UNRESOLVED type updownLine")
+		return
+	}
+	ev := newEval(c)
+	writes := captureWrites(ev)
+	a, b := eval.Sym("a"), eval.Sym("b")
+	rec := absValue(lineT, "r", eval.Sym("L")).(*eval.StructVal)
+	rec.F["idx"] = eval.K(0)
+	rec.F["snps"] = eval.NewSlice(eval.SSym("snp1"), eval.SSym("snp2"))
+	rec.F["ambs"] = eval.NewSlice(a, a, b, b.Add(eval.K(2)))
+	sig := fn.Type().(*types.Signature)
+	var args []eval.Value
+	for i := 0; i < sig.Params().Len(); i++ {
+		p := sig.Params().At(i)
+		switch t := p.Type().Underlying().(type) {
+		case *types.Chan:
+			if types.Identical(t.Elem(), lineT) {
+				args = append(args, &eval.ChanVal{Name: "in", Feed: []eval.Value{rec}})
+			} else {
+				args = append(args, &eval.ChanVal{Name: p.Name()})
+			}
+		default:
+			args = append(args, eval.Opaque{Why: "writer"})
+		}
+	}
+	if _, err := ev.CallFuncBound(fn, args...); err != nil {
+		c.Und("R3/writeOutput", fn.Pos(), "cannot evaluate the writer on a symbolic record: %v", err)
+		return
+	}
+	var got []string
+	for _, w := range *writes {
+		got = append(got, w.String())
+	}
+	all := strings.Join(got, "")
+	wantHeader := "query,SNPs,ambiguities,SNPcount,ambcount\n"
+	wantRow := "<r.id>,<snp1>|<snp2>,{a}|{b}-{b+2},{r.snpCount},{r.ambCount}\n"
+	c.Ob("R3/writeOutput/header", strings.HasPrefix(all, wantHeader), fn.Pos(), "first bytes written: %q", firstN(all, 60))
+	c.Ob("R3/writeOutput/row-layout", all == wantHeader+wantRow, fn.Pos(), "row written for a symbolic record with SNPs [snp1 snp2] and tracts (a,a),(b,b+2): %q, want %q", strings.TrimPrefix(all, wantHeader), wantRow)
+	c.Sample(map[string]string{"rule": "R3", "symbolic_row": wantRow})
+	// several records arriving out of input order, so that more than one row is flushed in one pass:
+	// every row must carry only its own ranges, in input order
+	ev2 := newEval(c)
+	writes2 := captureWrites(ev2)
+	mk := func(idx int64, id string, lo, hi int64, snps ...string) eval.Value {
+		r := absValue(lineT, "r", eval.Sym("L")).(*eval.StructVal)
+		r.F["id"] = eval.S(id)
+		r.F["idx"] = eval.K(idx)
+		var ss []eval.Value
+		for _, x := range snps {
+			ss = append(ss, eval.S(x))
+		}
+		r.F["snps"] = eval.NewSlice(ss...)
+		r.F["snpCount"] = eval.K(int64(len(snps)))
+		if lo > 0 {
+			r.F["ambs"] = eval.NewSlice(eval.K(lo), eval.K(hi))
+			r.F["ambCount"] = eval.K(hi - lo + 1)
+		} else {
+			r.F["ambs"] = eval.NewSlice()
+			r.F["ambCount"] = eval.K(0)
+		}
+		return r
+	}
+	feed := []eval.Value{mk(2, "s2", 6, 7), mk(1, "s1", 0, 0, "A3C"), mk(0, "s0", 1, 2, "A9T", "C10G"), mk(3, "s3", 4, 4)}
+	var args2 []eval.Value
+	for i := 0; i < sig.Params().Len(); i++ {
+		p := sig.Params().At(i)
+		switch t := p.Type().Underlying().(type) {
+		case *types.Chan:
+			if types.Identical(t.Elem(), lineT) {
+				args2 = append(args2, &eval.ChanVal{Name: "in", Feed: feed})
+			} else {
+				args2 = append(args2, &eval.ChanVal{Name: p.Name()})
+			}
+		default:
+			args2 = append(args2, eval.Opaque{Why: "writer"})
+		}
+	}
+	if _, err := ev2.CallFuncBound(fn, args2...); err != nil {
+		c.Und("R3/writeOutput/out-of-order-batch", fn.Pos(), "cannot evaluate the writer: %v", err)
+		return
+	}
+	var sb strings.Builder
+	for _, w := range *writes2 {
+		sb.WriteString(w.String())
+	}
+	want2 := wantHeader + "s0,A9T|C10G,1-2,2,2\ns1,A3C,,1,0\ns2,,6-7,0,2\ns3,,4,0,1\n"
+	c.Ob("R3/writeOutput/out-of-order-batch", sb.String() == want2, fn.Pos(), "records arriving as idx 2,1,0,3 are written as %q, want %q", sb.String(), want2)
+}
+
+func firstN(s string, n int) string {
+	if len(s) > n {
+		return s[:n]
+	}
+	return s
+}
+
+// c10Transducer: the abstract, length-independent argument for getLines.
+func c10Transducer(c *core.Ctx, fn *types.Func, tabs *Tables) {
 	dom := tabs.domain(false)
 	ev := newEval(c)
 	ev.Domain = func(s eval.AbsSeq) []eval.Value { return codeValues(dom) }
@@ -337,133 +488,148 @@ func C10(c *core.Ctx) {
 		}
 	}
 	c.Ob("R1/getLines/flush-open-tract", flushOK, fn.Pos(), "%s", detail)
-	c10Writer(c)
-	checkPoolOrder(c, "R3", "pkg/updown", "List")
 }
 
-// symMinus: if l == sym + k returns sym.
-func symMinus(l eval.Lin, k int64) string {
-	if len(l.T) != 1 || l.C != k {
-		return ""
+// c10Concrete: getLines on every sequence of a bounded length over {A, C, T, N, R, -} against five references, compared
+// field by field with the row the property specifies (written from the property's text, not from the code): SNPs are the
+// A/C/G/T columns whose base is not in the reference symbol's base set, ambiguity ranges the maximal runs of other
+// columns (1-based, inclusive), the counts count those, the sorted copy is the SNP list in string order.
+func c10Concrete(c *core.Ctx, fn *types.Func, tabs *Tables) bool {
+	key := "R1/getLines/bounded-family"
+	recT := namedType(c, "pkg/fastaio", "EncodedFastaRecord")
+	if recT == nil {
+		c.Und(key, fn.Pos(), "UNRESOLVED type fastaio.EncodedFastaRecord")
+		return false
 	}
-	for s, co := range l.T {
-		if co == 1 {
-			return s
+	L := 4
+	if c.Tier == "thorough" {
+		L = 5
+	}
+	alpha := []byte("ACTNR-")
+	var seqs []string
+	var gen func(cur string)
+	gen = func(cur string) {
+		if len(cur) == L {
+			seqs = append(seqs, cur)
+			return
+		}
+		for _, a := range alpha {
+			gen(cur + string(a))
 		}
 	}
-	return ""
-}
-
-func varOfIn(sum *eval.LoopSummary, inSym string) string {
-	for name, s := range sum.In {
-		if s == inSym {
-			return name
+	gen("")
+	refs := []string{"ACGTA", "AAAAA", "ARNCT", "TC-GA", "NNYCA"}
+	enc := func(s string) eval.Value {
+		vs := make([]eval.Value, len(s))
+		for i := 0; i < len(s); i++ {
+			vs[i] = eval.K(tabs.Soft[s[i]])
 		}
+		return eval.NewSlice(vs...)
 	}
-	return ""
-}
-
-// c10Writer interprets updown.writeOutput on one symbolic record.
-func c10Writer(c *core.Ctx) {
-	fn := c.LookupFunc("pkg/updown", "writeOutput")
-	if fn == nil {
-		c.Und("R3/writeOutput", token.NoPos, "UNRESOLVED anchor updown.writeOutput")
-		return
-	}
-	lineT := namedType(c, "pkg/updown", "updownLine")
-	if lineT == nil {
-		c.Und("R3/writeOutput", fn.Pos(), "UNRESOLVED type updownLine")
-		return
-	}
-	ev := newEval(c)
-	writes := captureWrites(ev)
-	a, b := eval.Sym("a"), eval.Sym("b")
-	rec := absValue(lineT, "r", eval.Sym("L")).(*eval.StructVal)
-	rec.F["idx"] = eval.K(0)
-	rec.F["snps"] = eval.NewSlice(eval.SSym("snp1"), eval.SSym("snp2"))
-	rec.F["ambs"] = eval.NewSlice(a, a, b, b.Add(eval.K(2)))
-	sig := fn.Type().(*types.Signature)
-	var args []eval.Value
-	for i := 0; i < sig.Params().Len(); i++ {
-		p := sig.Params().At(i)
-		switch t := p.Type().Underlying().(type) {
-		case *types.Chan:
-			if types.Identical(t.Elem(), lineT) {
-				args = append(args, &eval.ChanVal{Name: "in", Feed: []eval.Value{rec}})
-			} else {
-				args = append(args, &eval.ChanVal{Name: p.Name()})
+	strs := func(v eval.Value) ([]string, bool) {
+		sl, ok := v.(eval.Slice)
+		if !ok {
+			_, isNil := v.(eval.Nil)
+			return nil, isNil || v == nil
+		}
+		var out []string
+		for _, e := range sl.Elems() {
+			st, ok := e.(eval.Str)
+			if !ok || !st.IsConst() {
+				return nil, false
 			}
-		default:
-			args = append(args, eval.Opaque{Why: "writer"})
+			out = append(out, st.Const())
 		}
+		return out, true
 	}
-	if _, err := ev.CallFuncBound(fn, args...); err != nil {
-		c.Und("R3/writeOutput", fn.Pos(), "cannot evaluate the writer on a symbolic record: %v", err)
-		return
-	}
-	var got []string
-	for _, w := range *writes {
-		got = append(got, w.String())
-	}
-	all := strings.Join(got, "")
-	wantHeader := "query,SNPs,ambiguities,SNPcount,ambcount\n"
-	wantRow := "<r.id>,<snp1>|<snp2>,{a}|{b}-{b+2},{r.snpCount},{r.ambCount}\n"
-	c.Ob("R3/writeOutput/header", strings.HasPrefix(all, wantHeader), fn.Pos(), "first bytes written: %q", firstN(all, 60))
-	c.Ob("R3/writeOutput/row-layout", all == wantHeader+wantRow, fn.Pos(), "row written for a symbolic record with SNPs [snp1 snp2] and tracts (a,a),(b,b+2): %q, want %q", strings.TrimPrefix(all, wantHeader), wantRow)
-	c.Sample(map[string]string{"rule": "R3", "symbolic_row": wantRow})
-	// several records arriving out of input order, so that more than one row is flushed in one pass:
-	// every row must carry only its own ranges, in input order
-	ev2 := newEval(c)
-	writes2 := captureWrites(ev2)
-	mk := func(idx int64, id string, lo, hi int64, snps ...string) eval.Value {
-		r := absValue(lineT, "r", eval.Sym("L")).(*eval.StructVal)
-		r.F["id"] = eval.S(id)
-		r.F["idx"] = eval.K(idx)
-		var ss []eval.Value
-		for _, x := range snps {
-			ss = append(ss, eval.S(x))
+	ints := func(v eval.Value) ([]int64, bool) {
+		sl, ok := v.(eval.Slice)
+		if !ok {
+			_, isNil := v.(eval.Nil)
+			return nil, isNil || v == nil
 		}
-		r.F["snps"] = eval.NewSlice(ss...)
-		r.F["snpCount"] = eval.K(int64(len(snps)))
-		if lo > 0 {
-			r.F["ambs"] = eval.NewSlice(eval.K(lo), eval.K(hi))
-			r.F["ambCount"] = eval.K(hi - lo + 1)
-		} else {
-			r.F["ambs"] = eval.NewSlice()
-			r.F["ambCount"] = eval.K(0)
-		}
-		return r
-	}
-	feed := []eval.Value{mk(2, "s2", 6, 7), mk(1, "s1", 0, 0, "A3C"), mk(0, "s0", 1, 2, "A9T", "C10G"), mk(3, "s3", 4, 4)}
-	var args2 []eval.Value
-	for i := 0; i < sig.Params().Len(); i++ {
-		p := sig.Params().At(i)
-		switch t := p.Type().Underlying().(type) {
-		case *types.Chan:
-			if types.Identical(t.Elem(), lineT) {
-				args2 = append(args2, &eval.ChanVal{Name: "in", Feed: feed})
-			} else {
-				args2 = append(args2, &eval.ChanVal{Name: p.Name()})
+		var out []int64
+		for _, e := range sl.Elems() {
+			n, ok := linConst(e)
+			if !ok {
+				return nil, false
 			}
-		default:
-			args2 = append(args2, eval.Opaque{Why: "writer"})
+			out = append(out, n)
+		}
+		return out, true
+	}
+	var bad []string
+	n := 0
+	for _, ref0 := range refs {
+		ref := ref0[:L]
+		// one activation per reference, all sequences through it (also exercises state carried between records)
+		var feed []eval.Value
+		for i, s := range seqs {
+			rec := absValue(recT, "r", eval.K(int64(L))).(*eval.StructVal)
+			rec.F["ID"] = eval.S(fmt.Sprintf("s%d", i))
+			rec.F["Description"] = eval.S(fmt.Sprintf("s%d", i))
+			rec.F["Idx"] = eval.K(int64(i))
+			rec.F["Seq"] = enc(s)
+			feed = append(feed, rec)
+		}
+		ev := newEval(c)
+		out, errs := &eval.ChanVal{Name: "out"}, &eval.ChanVal{Name: "err"}
+		if _, err := ev.CallFunc(fn, enc(ref), &eval.ChanVal{Name: "in", Feed: feed}, out, errs); err != nil || len(out.Sent) != len(seqs) || len(errs.Sent) != 0 {
+			c.Und(key, fn.Pos(), "cannot evaluate getLines on the family (reference %s): %v (%d rows, %d errors)", ref, err, len(out.Sent), len(errs.Sent))
+			return false
+		}
+		for i, s := range seqs {
+			n++
+			row, ok := out.Sent[i].(*eval.StructVal)
+			if !ok {
+				bad = append(bad, fmt.Sprintf("ref %s seq %s: no row", ref, s))
+				continue
+			}
+			var wSnps []string
+			var wPos, wAmbs []int64
+			ambCount := int64(0)
+			for k := 0; k < L; {
+				q := s[k]
+				if q == 'A' || q == 'C' || q == 'G' || q == 'T' {
+					rs, _ := oracle.BaseSet(ref[k], false)
+					qs, _ := oracle.BaseSet(q, false)
+					if rs&qs == 0 {
+						wSnps = append(wSnps, fmt.Sprintf("%c%d%c", ref[k], k+1, q))
+						wPos = append(wPos, int64(k+1))
+					}
+					k++
+					continue
+				}
+				e := k
+				for e < L && !(s[e] == 'A' || s[e] == 'C' || s[e] == 'G' || s[e] == 'T') {
+					e++
+				}
+				wAmbs = append(wAmbs, int64(k+1), int64(e))
+				ambCount += int64(e - k)
+				k = e
+			}
+			wSorted := append([]string{}, wSnps...)
+			sort.Strings(wSorted)
+			gSnps, ok1 := strs(row.F["snps"])
+			gSorted, ok2 := strs(row.F["snpsSorted"])
+			gPos, ok3 := ints(row.F["snpsPos"])
+			gAmbs, ok4 := ints(row.F["ambs"])
+			gSC, ok5 := linConst(row.F["snpCount"])
+			gAC, ok6 := linConst(row.F["ambCount"])
+			gIdx, ok7 := linConst(row.F["idx"])
+			id, _ := row.F["id"].(eval.Str)
+			if !(ok1 && ok2 && ok3 && ok4 && ok5 && ok6 && ok7) {
+				bad = append(bad, fmt.Sprintf("ref %s seq %s: row not constant: %s", ref, s, firstN(eval.Show(row), 200)))
+				continue
+			}
+			got := fmt.Sprintf("id=%s idx=%d snps=%v sorted=%v pos=%v snpCount=%d ambs=%v ambCount=%d", id.Const(), gIdx, gSnps, gSorted, gPos, gSC, gAmbs, gAC)
+			want := fmt.Sprintf("id=s%d idx=%d snps=%v sorted=%v pos=%v snpCount=%d ambs=%v ambCount=%d", i, i, wSnps, wSorted, wPos, len(wSnps), wAmbs, ambCount)
+			if got != want {
+				bad = append(bad, fmt.Sprintf("reference %s, sequence %s: row {%s}, specified {%s}", ref, s, got, want))
+			}
 		}
 	}
-	if _, err := ev2.CallFuncBound(fn, args2...); err != nil {
-		c.Und("R3/writeOutput/out-of-order-batch", fn.Pos(), "cannot evaluate the writer: %v", err)
-		return
-	}
-	var sb strings.Builder
-	for _, w := range *writes2 {
-		sb.WriteString(w.String())
-	}
-	want2 := wantHeader + "s0,A9T|C10G,1-2,2,2\ns1,A3C,,1,0\ns2,,6-7,0,2\ns3,,4,0,1\n"
-	c.Ob("R3/writeOutput/out-of-order-batch", sb.String() == want2, fn.Pos(), "records arriving as idx 2,1,0,3 are written as %q, want %q", sb.String(), want2)
-}
-
-func firstN(s string, n int) string {
-	if len(s) > n {
-		return s[:n]
-	}
-	return s
+	c.Count("getlines_rows_evaluated", n)
+	c.Ob(key, len(bad) == 0, fn.Pos(), "%s", first(bad, 3))
+	return len(bad) == 0
 }
